@@ -23,13 +23,17 @@ SUB = {
     "prefixes": [114, 82, 98, 66, 39, 34, 92, 97, 10],                               # r R b B ' " \ a \n
     "whitespace": [32, 9, 10, 11, 12, 13, 97, 59, 47, 42, 39],                       # every ASCII white-space byte
     "highbytes": [97, 32, 0x85, 0xA0, 0xC2, 0xE3, 0x80, 39, 47, 42],                 # lone and well-formed non-ASCII white space
+    # tiny alphabets to greater length: runs whose PARITY matters (stars before '/', quotes in a row, backslashes before a quote)
+    "blockcomment": [47, 42, 97],                                                    # / * a
+    "quoteruns": [39, 92, 97, 10],                                                   # ' \ a \n
+    "dquoteruns": [34, 39, 92, 98],                                                  # " ' \ b
 }
 KW_SAMPLE = ["select", "SeLeCt", "Null", "nulls", "iN", "ins", "By", "tO", "oF", "of_", "hash", "HASH1", "Interval",
              "proto", "assert_rows_modified", "ASSERT_ROWS_MODIFIE", "Graph_Table", "graph_tabl", "tablesample", "WITHIN", "withi"]
 
 TIERS = {
-    "quick": dict(sigma_len=4, subs={"escapes": 4, "numbers": 4, "comments": 4, "dotmode": 4, "prefixes": 4, "highbytes": 4, "whitespace": 4}, random=4000, rlen=24, gen_len=3, chunks=8),
-    "thorough": dict(sigma_len=5, subs={"escapes": 5, "numbers": 5, "comments": 6, "dotmode": 5, "prefixes": 6, "highbytes": 5, "whitespace": 5}, random=60000, rlen=40, gen_len=4, chunks=16),
+    "quick": dict(sigma_len=4, subs={"escapes": 4, "numbers": 4, "comments": 4, "dotmode": 4, "prefixes": 4, "highbytes": 4, "whitespace": 4, "blockcomment": 9, "quoteruns": 7, "dquoteruns": 7}, random=4000, rlen=24, gen_len=3, chunks=8),
+    "thorough": dict(sigma_len=5, subs={"escapes": 5, "numbers": 5, "comments": 6, "dotmode": 5, "prefixes": 6, "highbytes": 5, "whitespace": 5, "blockcomment": 11, "quoteruns": 9, "dquoteruns": 8}, random=60000, rlen=40, gen_len=4, chunks=16),
 }
 
 
